@@ -1256,3 +1256,175 @@ def rule_clauselang(P, only=None) -> RuleResult:
 
 def rule_clauselang_pivot(P) -> RuleResult:
     return rule_clauselang(P, only=('pivotby', 'select'))
+
+
+# ----------------------------------------------------------------------
+# R-CUTSAFE (C06): a cut commits the whole parse - no later alternative may have wanted the same first token
+
+def _first_sets(model):
+    """FIRST sets of every rule over tokens ('t', TEXT) and patterns ('p', regex, is_name_rule); '' marks nullable."""
+    G = _G()
+    rules = _rules(model)
+    first = {r.name: set() for r in model.rules}
+    is_name = {r.name: bool(getattr(r, 'is_name', False)) or any(getattr(d, 'name', d) == 'name' for d in (getattr(r, 'decorators', None) or [])) for r in model.rules}
+
+    def fs(e, rule):
+        if e is None:
+            return {''}
+        if isinstance(e, G.Token):
+            return {('t', e.token.upper())}
+        if isinstance(e, G.Pattern):
+            return {('p', e.pattern, is_name.get(rule, False))}
+        if isinstance(e, G.RuleRef):
+            return set(first.get(e.name, set()))
+        if isinstance(e, (G.Cut, G.Constant, G.EmptyClosure, G.Void, G.Lookahead, G.NegativeLookahead)):
+            return {''}
+        if isinstance(e, G.Choice):
+            out = set()
+            for o in e.options:
+                out |= fs(o, rule)
+            return out
+        if isinstance(e, G.Sequence):
+            out = set()
+            for x in e.sequence:
+                f = fs(x, rule)
+                out |= f - {''}
+                if '' not in f:
+                    return out
+            return out | {''}
+        if isinstance(e, G.Optional):
+            return fs(e.exp, rule) | {''}
+        if isinstance(e, (G.Join, G.Gather)):
+            f = fs(e.exp, rule)
+            return f if isinstance(e, (G.PositiveJoin, G.PositiveGather)) else f | {''}
+        if isinstance(e, G.Closure):
+            f = fs(e.exp, rule)
+            return f if isinstance(e, G.PositiveClosure) else f | {''}
+        cs = _children(e)
+        if len(cs) == 1:
+            return fs(cs[0], rule)
+        return {''}
+    changed = True
+    while changed:
+        changed = False
+        for r in model.rules:
+            f = fs(r.exp, r.name)
+            if not f <= first[r.name]:
+                first[r.name] |= f
+                changed = True
+    return first, fs
+
+
+# cuts confirmed by reading: (rule, first token of the prefix) -> why no later alternative is lost
+CUT_EXCEPTIONS = {
+    ('from', 'OPEN'): 'clause word at the head of FROM; not reserved, but the tables a FROM expression ranges over (entries, postings) have no column `open`',
+    ('from', 'CLOSE'): 'clause word at the head of FROM; the entries and postings tables have no column `close`',
+    ('from', 'CLEAR'): 'clause word at the head of FROM; the entries and postings tables have no column `clear`',
+}
+
+
+def rule_cutsafe(P) -> RuleResult:
+    """In the generated parser a cut (`~`) is not local to its rule: once passed, a failure further on fails the whole parse instead of
+    letting an enclosing choice try its next alternative.  For every cut that follows a terminal prefix at the head of its sequence:
+    no later alternative of a choice the sequence stands in - in its own rule, or wherever its rule is referenced as an alternative -
+    may begin with the same token; otherwise text that the later alternative parses is rejected as soon as it starts with that token."""
+    res = RuleResult('R-CUTSAFE')
+    res.exhaustive = True
+    G = _G()
+    text, model, _ = _grammar(P.repo)
+    rules = _rules(model)
+    first, fs = _first_sets(model)
+    kws = {k.upper() for k in model.keywords}
+
+    def strip(e):
+        while isinstance(e, (G.Group, G.Option, G.Named, G.NamedList, G.Override, G.OverrideList)) or (isinstance(e, G.Sequence) and len(e.sequence) == 1):
+            e = e.sequence[0] if isinstance(e, G.Sequence) else e.exp
+        return e
+
+    def can_start_with(fset, tok):
+        for f in fset:
+            if f == '':
+                continue
+            if f[0] == 't' and f[1] == tok:
+                return f'the token {tok}'
+            if f[0] == 'p':
+                if f[2] and tok in kws:
+                    continue        # a @name rule does not match reserved words
+                try:
+                    rx = re.compile(f[1], re.I)
+                except re.error:
+                    continue
+                if any(rx.match(tok + tail) for tail in ('', 'a', '0', ' ')):
+                    return f'the pattern /{f[1]}/'
+        return None
+
+    def heads(e):
+        """[(prefix tokens, sequence)] for sequences in e (not descending into choices) where a Cut follows terminal tokens only."""
+        e = strip(e)
+        if isinstance(e, G.Sequence):
+            pre = []
+            for x in e.sequence:
+                x = strip(x)
+                if isinstance(x, G.Cut):
+                    return pre if pre else None
+                if isinstance(x, G.Token):
+                    pre.append(x.token.upper())
+                    continue
+                return None
+        return None
+
+    n = 0
+
+    def check(where, options, idx, prefix, via):
+        nonlocal n
+        for later in options[idx + 1:]:
+            n += 1
+            hit = can_start_with(fs(later, where) if not isinstance(later, str) else first[later], prefix[0])
+            if hit:
+                res.fail(f'grammar:{where}', f'cutsafe:{prefix[0]}', f'{via}: after `{" ".join(prefix)}` the parse is committed (cut), but a later '
+                         f'alternative of the choice in rule {where} (`{str(later)[:50]}`) can also begin with {hit}: text it would parse is now a '
+                         f'syntax error whenever it starts with `{prefix[0]}`')
+                return False
+        return True
+    cuts = 0
+    for r in model.rules:
+        body = strip(r.exp)
+        # (a) alternatives of a choice in the rule itself
+        if isinstance(body, G.Choice):
+            for i, o in enumerate(body.options):
+                pre = heads(o)
+                if pre:
+                    cuts += 1
+                    if (r.name, pre[0]) in CUT_EXCEPTIONS:
+                        res.ok({'rule': r.name, 'cut_after': ' '.join(pre), 'confirmed_by_hand': CUT_EXCEPTIONS[(r.name, pre[0])]})
+                        continue
+                    if check(r.name, list(body.options), i, pre, f'rule {r.name}, alternative {i + 1}'):
+                        res.ok({'rule': r.name, 'cut_after': ' '.join(pre), 'later_alternatives': 'begin with other tokens'})
+        else:
+            pre = heads(body)
+            if not pre:
+                continue
+            cuts += 1
+            good = True
+            # (b) the rule is referenced as an alternative of a choice elsewhere
+            for r2 in model.rules:
+                def walk(e):
+                    nonlocal good
+                    e0 = strip(e)
+                    if isinstance(e0, G.Choice):
+                        for i, o in enumerate(e0.options):
+                            o0 = strip(o)
+                            if isinstance(o0, G.RuleRef) and o0.name == r.name:
+                                good &= check(r2.name, list(e0.options), i, pre, f'rule {r.name} (used as an alternative in {r2.name})')
+                    for c in _children(e0):
+                        walk(c)
+                walk(r2.exp)
+            if good:
+                res.ok({'rule': r.name, 'cut_after': ' '.join(pre), 'used_as_alternative': 'only before alternatives that begin with other tokens'})
+    if cuts < 3:
+        raise AnalysisError(f'only {cuts} cuts after a terminal prefix found in the grammar')
+    return res
+
+
+def rule_clauselang_target(P) -> RuleResult:
+    return rule_clauselang(P, only=('target', 'select'))
